@@ -72,7 +72,7 @@ def run(tier, seed):
                 kvi = dict(x.split("=", 1) for x in obs.split(" "))
                 if hitline is not None:
                     injected_hit += 1
-                    if raw["rc"] != 0 and int(kvi["nerr"]) == 0:
+                    if raw["rc"] != 0 and int(kvi["nerr"]) == 0 and not raw.get("fatal"):
                         wi.append("the run failed (exit %s) but the stream has no error object" % raw["rc"])
                 sm = raw["summary"]
                 if sm is not None:
@@ -119,6 +119,8 @@ def run(tier, seed):
                     w.append("changed files without an update event: %r" % sorted(set(changed) - set(updates))[:5])
                 if not fl.get("it") and not fl.get("ck") and not set(updates) <= set(changed) | set(faulted):
                     w.append("update events for files that did not change: %r" % sorted(set(updates) - set(changed))[:5])
+            if obs.startswith("refused=1") and not raw.get("fatal"):
+                w.append("the run was refused (mass-deletion guard) but the --json stream has no error object")
             # (3) summary counters
             sm = raw["summary"]
             if sm is None and not obs.startswith("refused=1") and raw["rc"] in (0, 1) and "exit=1" not in obs.split(" ")[1:2]:
